@@ -109,7 +109,7 @@ def benign_table():
 
 
 GEN = {'checks': checks_table, 'fixed': fixed_list, 'known': known_list,
-       'seeded1': lambda: seeded_table(1), 'seeded2': lambda: seeded_table(2), 'seeded3': lambda: seeded_table(3), 'seeded4': lambda: seeded_table(4), 'seeded5': lambda: seeded_table(5), 'seeded6': lambda: seeded_table(6), 'seeded7': lambda: seeded_table(7), 'seeded8': lambda: seeded_table(8), 'seeded9': lambda: seeded_table(9), 'benign': benign_table}
+       'seeded1': lambda: seeded_table(1), 'seeded2': lambda: seeded_table(2), 'seeded3': lambda: seeded_table(3), 'seeded4': lambda: seeded_table(4), 'seeded5': lambda: seeded_table(5), 'seeded6': lambda: seeded_table(6), 'seeded7': lambda: seeded_table(7), 'seeded8': lambda: seeded_table(8), 'seeded9': lambda: seeded_table(9), 'seeded10': lambda: seeded_table(10), 'benign': benign_table}
 
 s = open(f'{V}/DESIGN.md').read()
 for name, fn in GEN.items():
